@@ -11,7 +11,14 @@ ob("an_type_tag_inverse", "C11", entry="h_an_type_tag_inverse", **AN)
 ob("ANIanncmp", "C11", entry="h_ANIanncmp", enforce="ANIanncmp", **AN)
 ob("an_cmp_order", "C11", entry="h_an_cmp_order", **AN)
 ob("ANIannlen", "C11", entry="h_ANIannlen", enforce="ANIannlen", **AN)
+# the full domain: FAILS on the D14 inputs (label with maxlen == 1 / description with maxlen == 0 and text stored):
+# the clamped length 0 reaches Hread, where 0 means "to the end" -> writes beyond ann[0..maxlen)
 ob("ANIreadann", "C11", entry="h_ANIreadann", enforce="ANIreadann", **AN)
+# same contract, D14 inputs excluded in the harness (everything else of the domain)
+ob("ANIreadann_room", "C11", entry="h_ANIreadann_room", enforce="ANIreadann", **AN)
+# faithful byte-by-byte Hread model instead of the sparse one, sizes capped
+ob("ANIreadann_room_b", "C11", entry="h_ANIreadann_room", enforce="ANIreadann", mode="bounded",
+   bound="stored element <= 12 bytes, maxlen <= 12", defines=["H4V_CEX"], unwind=14, **AN)
 
 prop("C11",
      residual="whole-API histories: annotation trees (ANIcreate_ann_tree/ANIaddentry over tbbt), ANannlist/ANnumann listing, "
